@@ -5,7 +5,8 @@
   * afterwards the descriptor table is exactly what it was before — whether the command succeeded,
     failed, or a redirection failed — except for a successful `exec`;
   * descriptors the shell holds for its own use while the command runs are ≥ 10 and CLOEXEC;
-  * no descriptor ≥ 10 that was not open before is left open (also after `exec`).
+  * no descriptor ≥ 10 that was not open before is left open (also after `exec`);
+  * no CLOEXEC descriptor below 10 is ever visible or left that was not there before.
 -/
 import YashModel.Redir.World
 namespace YashModel.Redir
@@ -21,12 +22,20 @@ def internalOk (t : FdTable) (saved : List SavedFd) : Bool :=
 def noExtraInternal (before after : FdTable) (allowed : List Fd) : Bool :=
   after.openFds.all fun (fd, _) => decide (fd < 10) || (before.get fd).isSome || allowed.contains fd
 
+/-- no CLOEXEC descriptor below 10 appears that was not there before -/
+def noLowCloexec (before t : FdTable) : Bool :=
+  t.openFds.all fun (fd, e) => !(decide (fd < 10) && e.cloexec) || before.get fd == some e
+
 def specVerdict (before : FdTable) (k : Kind) (rs : List Redir) (tr : Trace) : String :=
   let persists := (k == .exec || k == .commandExec) && tr.status == some 0
   if !persists && !sameTable before tr.t then "FAIL:table-not-restored"
   else if !noExtraInternal before tr.t (if persists then rs.map (·.fd) else []) then "FAIL:descriptor-left-open"
+  else if !noLowCloexec before tr.t then "FAIL:cloexec-below-10-left"
   else match tr.during with
-    | some (_, td) => if internalOk td tr.saved then "ok" else "FAIL:internal-descriptor"
+    | some (_, td) =>
+      if !internalOk td (tr.saved ++ [⟨0, tr.script⟩]) then "FAIL:internal-descriptor"
+      else if !noLowCloexec before td then "FAIL:cloexec-below-10-visible"
+      else "ok"
     | none => "ok"
 
 end YashModel.Redir
